@@ -117,7 +117,7 @@ func runC08(c *explore.Ctx) {
 		forEachProfileDoc(c, s, "", func(d kitDoc) { c08Doc(c, s, d) })
 		s.WallS = time.Since(t0).Seconds()
 	}
-	n := c.Pick(7, 10)
+	n := c.Pick(7, 12)
 	s = c.Sub("type-blind", fmt.Sprintf("every type-blind document: sentences of ≤ %d tokens of the executable grammar × every assignment of %d names to ≤ 4 name positions", n, len(kitVocab)),
 		"as above", "documents both sides accept")
 	if s != nil {
